@@ -74,10 +74,12 @@ var suffixes = []string{
 	"", "]", "}", ")", "\"", "'", "1", " 1", ",1", "\"}", ":1}", "0", "e1", " ", ",", "\":1}", "\"]", "a", "ull", "*/", "/", "\n", "\n,:1}", "+\"b\"", "041\"", ".5", "-1",
 }
 
+var suffixesFull = []string{"", " 1", "\"", "a", "]", ":1}", ")", "\n,:1}"}
+
 func transitionCases(full bool, f func([]byte)) {
 	ctxs, sufs := contexts[:2], suffixesQuick
 	if full {
-		ctxs, sufs = contexts, suffixes
+		ctxs, sufs = contexts[:3], suffixesFull
 	}
 	for _, ctx := range ctxs {
 		for _, pre := range modePrefixes {
@@ -85,9 +87,6 @@ func transitionCases(full bool, f func([]byte)) {
 				for _, suf := range sufs {
 					s := ctx[0] + pre + string([]byte{byte(b)}) + suf + ctx[1]
 					f([]byte(s))
-					if full && ctx[1] != "" {
-						f([]byte(ctx[0] + pre + string([]byte{byte(b)}) + suf))
-					}
 				}
 			}
 		}
